@@ -1907,14 +1907,13 @@ impl ReManager {
             BaseRegLan::Empty => false,
             BaseRegLan::Epsilon => false,
             BaseRegLan::Range(set) => set.contains(c),
-            BaseRegLan::Concat(e1, e2) => {
-                self.start_char(e1, c) || e1.nullable && self.start_char(e2, c)
-            }
             BaseRegLan::Loop(e, _) => self.start_char(e, c),
-            BaseRegLan::Inter(args) => args.iter().all(|x| self.start_char(x, c)),
             BaseRegLan::Union(args) => args.iter().any(|x| self.start_char(x, c)),
-            BaseRegLan::Complement(_) => {
-                // expensive case
+            BaseRegLan::Concat(..) | BaseRegLan::Inter(..) | BaseRegLan::Complement(_) => {
+                // expensive cases: no structural rule is exact
+                // - e1 . e2 may be empty even if e1 has a string that starts with c
+                // - all operands of an intersection may have a string that starts with c
+                //   without having one in common
                 let d = self.deriv(e, c);
                 !self.is_empty_re(d)
             }
